@@ -363,24 +363,36 @@ theorem seeded_alias_race_reachable :
 
 /-! ### Non-vacuity of the hypotheses of `server_race_free_reachable` -/
 
-/-- A small instance: the handler thread replaces a cache entry under Loader.mu; a diagnostics
-    goroutine loads the entry under Loader.mu (read lock), leaves the region, copies the parse
-    errors out of the cached entry with no lock held and reads the cached syntax tree. -/
+/-- the program "take the row's locks, perform its access, release them" over fields and stores -/
+def progOfR (r : Row (Loc ⊕ Store) Lock) : List (Instr (Loc ⊕ Store) Lock) :=
+  r.locks.map (fun x => Instr.acq x.1 x.2) ++ [.acc ⟨r.loc, r.kind, r.atomic, r.fresh⟩] ++
+    r.locks.reverse.map (fun x => Instr.rel x.1)
+
+def pickRowR (role : Role) (p : Row (Loc ⊕ Store) Lock → Bool) : List (Instr (Loc ⊕ Store) Lock) :=
+  match (fullTable accessTable escapes).find? (fun r => r.role == role && p r) with
+  | some r => progOfR r
+  | none => []
+
+def isStore (r : Row (Loc ⊕ Store) Lock) : Bool := match r.loc with | .inr _ => true | .inl _ => false
+
+/-- A small instance built from rows of the regenerated tables (nothing is named): the handler
+    thread writes a store inside a lock region; a diagnostics goroutine reads a store inside a
+    lock region and reads another one with no lock held (an escaped, copied or immutable
+    reference). -/
 def demoPoolR : Pool (Loc ⊕ Store) Lock where
   prog := fun t => match t with
     | 0 => [.spawn 1]
-    | 1 => [.spawn 2,
-            .acq .Loader_mu .excl, .acc ⟨.inl .Loader_cache, .write, false, false⟩,
-            .acc ⟨.inr .Loader_cache, .write, false, false⟩, .rel .Loader_mu]
-    | 2 => [.acq .Loader_mu .shared, .acc ⟨.inl .Loader_cache, .read, false, false⟩,
-            .acc ⟨.inr .Loader_cache, .read, false, false⟩, .rel .Loader_mu,
-            .acc ⟨.inr .cachedFile_errors, .read, false, false⟩,
-            .acc ⟨.inr .Journal_Includes, .read, false, false⟩]
+    | 1 => [.spawn 2] ++ pickRowR .main (fun r => isStore r && r.kind == .write && r.locks.length == 1)
+    | 2 => pickRowR .publish (fun r => isStore r && r.kind == .read && r.locks.length == 1) ++
+           pickRowR .publish (fun r => isStore r && r.kind == .read && r.locks.isEmpty && !r.fresh)
     | _ => []
   role := fun t => match t with
     | 0 => .init
     | 1 => .main
     | _ => .publish
+
+def hasAccessR (p : List (Instr (Loc ⊕ Store) Lock)) : Bool :=
+  p.any fun i => match i with | .acc _ => true | _ => false
 
 def progConformsR (T : List (Row (Loc ⊕ Store) Lock)) (role : Role) (p : List (Instr (Loc ⊕ Store) Lock)) : Bool :=
   (List.range p.length).all fun n =>
@@ -391,7 +403,9 @@ def progConformsR (T : List (Row (Loc ⊕ Store) Lock)) (role : Role) (p : List 
     | _ => true
 
 example : (List.range 3).all (fun t =>
-    progConformsR (fullTable accessTable escapes) (demoPoolR.role t) (demoPoolR.prog t)) = true := by
+    progConformsR (fullTable accessTable escapes) (demoPoolR.role t) (demoPoolR.prog t)) = true ∧
+    hasAccessR (demoPoolR.prog 1) = true ∧
+    ((demoPoolR.prog 2).filter fun i => match i with | .acc _ => true | _ => false).length = 2 := by
   decide +kernel
 
 end HL.Props.C14
